@@ -20,9 +20,9 @@ Ltac decide_if :=
   | |- context [if ?b then _ else _] =>
       first
         [ let H := fresh "Hb" in
-          assert (H : b = true) by (unfold in_range, zb in *; timeout 20 lia); rewrite H; clear H
+          assert (H : b = true) by (unfold in_range, zb in *; timeout 600 lia); rewrite H; clear H
         | let H := fresh "Hb" in
-          assert (H : b = false) by (unfold in_range, zb in *; timeout 20 lia); rewrite H; clear H ]
+          assert (H : b = false) by (unfold in_range, zb in *; timeout 600 lia); rewrite H; clear H ]
   end.
 
 (** ** the encoder *)
@@ -70,7 +70,7 @@ Proof.
     [|destruct (N.ltb_spec c 2048) as [H2|H2];
       [|destruct (N.ltb_spec c 65536) as [H3|H3]]];
     cbn [In]; intros Hin;
-    repeat (destruct Hin as [Hin|Hin]; [subst b; timeout 20 lia|]); contradiction.
+    repeat (destruct Hin as [Hin|Hin]; [subst b; timeout 600 lia|]); contradiction.
 Qed.
 
 (** ** Go's decoder on RFC encodings *)
@@ -84,17 +84,17 @@ Proof.
       [|destruct (N.ltb_spec c 65536) as [H3|H3]]];
     cbv beta iota zeta delta [decode_rune app length].
   - repeat decide_if. reflexivity.
-  - repeat decide_if. f_equal. unfold zb. timeout 20 lia.
+  - repeat decide_if. f_equal. unfold zb. timeout 600 lia.
   - repeat decide_if.
     repeat match goal with
            | |- context [if (?a =? ?b)%Z then _ else _] => destruct (Z.eqb_spec a b)
-           end; try (exfalso; timeout 20 lia).
-    all: repeat decide_if. all: f_equal; unfold zb in *. all: timeout 20 lia.
+           end; try (exfalso; timeout 600 lia).
+    all: repeat decide_if. all: f_equal; unfold zb in *. all: timeout 600 lia.
   - repeat decide_if.
     repeat match goal with
            | |- context [if (?a =? ?b)%Z then _ else _] => destruct (Z.eqb_spec a b)
-           end; try (exfalso; timeout 20 lia).
-    all: repeat decide_if. all: f_equal; unfold zb in *. all: timeout 20 lia.
+           end; try (exfalso; timeout 600 lia).
+    all: repeat decide_if. all: f_equal; unfold zb in *. all: timeout 600 lia.
 Qed.
 
 Lemma read_next_rune_encode : forall (c : cp) (rest : bytes), scalar_value c = true ->
@@ -115,7 +115,7 @@ Proof.
   destruct (N.ltb_spec c 128) as [H1|H1];
     [|destruct (N.ltb_spec c 2048) as [H2|H2];
       [|destruct (N.ltb_spec c 65536) as [H3|H3]]];
-    repeat decide_if; list_eq; timeout 20 lia.
+    repeat decide_if; list_eq; timeout 600 lia.
 Qed.
 
 Lemma encode_rune_scalar : forall c : cp, scalar_value c = true -> encode_rune (Z.of_N c) = utf8_encode c.
@@ -210,21 +210,21 @@ Proof.
     cbv beta iota zeta delta [app]; rewrite utf8_decode_cons.
   - decide_if. reflexivity.
   - repeat decide_if.
-    rewrite (continuation_enc (c mod 64)) by (timeout 20 lia). cbv beta iota zeta.
-    replace ((192 + c / 64 - 192) * 64 + c mod 64)%N with c by (timeout 20 lia).
+    rewrite (continuation_enc (c mod 64)) by (timeout 600 lia). cbv beta iota zeta.
+    replace ((192 + c / 64 - 192) * 64 + c mod 64)%N with c by (timeout 600 lia).
     decide_if. reflexivity.
   - repeat decide_if.
-    rewrite (continuation_enc (c mod 64)) by (timeout 20 lia).
-    rewrite (continuation_enc ((c / 64) mod 64)) by (timeout 20 lia). cbv beta iota zeta.
+    rewrite (continuation_enc (c mod 64)) by (timeout 600 lia).
+    rewrite (continuation_enc ((c / 64) mod 64)) by (timeout 600 lia). cbv beta iota zeta.
     replace ((224 + c / 4096 - 224) * 4096 + (c / 64) mod 64 * 64 + c mod 64)%N with c
-      by (timeout 20 lia).
+      by (timeout 600 lia).
     rewrite Hs. decide_if. reflexivity.
   - repeat decide_if.
-    rewrite (continuation_enc (c mod 64)) by (timeout 20 lia).
-    rewrite (continuation_enc ((c / 64) mod 64)) by (timeout 20 lia).
-    rewrite (continuation_enc ((c / 4096) mod 64)) by (timeout 20 lia). cbv beta iota zeta.
+    rewrite (continuation_enc (c mod 64)) by (timeout 600 lia).
+    rewrite (continuation_enc ((c / 64) mod 64)) by (timeout 600 lia).
+    rewrite (continuation_enc ((c / 4096) mod 64)) by (timeout 600 lia). cbv beta iota zeta.
     replace ((240 + c / 262144 - 240) * 262144 + (c / 4096) mod 64 * 4096 +
-             (c / 64) mod 64 * 64 + c mod 64)%N with c by (timeout 20 lia).
+             (c / 64) mod 64 * 64 + c mod 64)%N with c by (timeout 600 lia).
     decide_if. reflexivity.
 Qed.
 
@@ -276,8 +276,8 @@ Proof.
       destruct (N.leb_spec 128 ((b0 - 192) * 64 + x1)) as [Hc|Hc]; [|discriminate].
       remember ((b0 - 192) * 64 + x1)%N as c eqn:Ec.
       assert (Henc : utf8_encode c = [b0; (128 + x1)%N]).
-      { unfold utf8_encode. repeat decide_if. list_eq; timeout 20 lia. }
-      assert (Hs : scalar_value c = true) by (apply scalar_value_spec; timeout 20 lia).
+      { unfold utf8_encode. repeat decide_if. list_eq; timeout 600 lia. }
+      assert (Hs : scalar_value c = true) by (apply scalar_value_spec; timeout 600 lia).
       change (b0 :: (128 + x1)%N :: t2) with ([b0; (128 + x1)%N] ++ t2). rewrite <- Henc.
       apply utf8_decode_sound_step; [exact Hs|exact Hd|].
       intros cps' Hd'. apply IH; [cbn [length] in Hn; lia|exact Hd']. }
@@ -294,7 +294,7 @@ Proof.
       destruct (scalar_value c) eqn:Hs; [|discriminate].
       cbn [andb] in Hd.
       assert (Henc : utf8_encode c = [b0; (128 + x1)%N; (128 + x2)%N]).
-      { unfold utf8_encode. repeat decide_if. list_eq; timeout 20 lia. }
+      { unfold utf8_encode. repeat decide_if. list_eq; timeout 600 lia. }
       change (b0 :: (128 + x1)%N :: (128 + x2)%N :: t3)
         with ([b0; (128 + x1)%N; (128 + x2)%N] ++ t3). rewrite <- Henc.
       apply utf8_decode_sound_step; [exact Hs|exact Hd|].
@@ -314,8 +314,8 @@ Proof.
       destruct (N.leb_spec c 1114111) as [Hc'|Hc']; [|discriminate].
       cbn [andb] in Hd.
       assert (Henc : utf8_encode c = [b0; (128 + x1)%N; (128 + x2)%N; (128 + x3)%N]).
-      { unfold utf8_encode. repeat decide_if. list_eq; timeout 20 lia. }
-      assert (Hs : scalar_value c = true) by (apply scalar_value_spec; timeout 20 lia).
+      { unfold utf8_encode. repeat decide_if. list_eq; timeout 600 lia. }
+      assert (Hs : scalar_value c = true) by (apply scalar_value_spec; timeout 600 lia).
       change (b0 :: (128 + x1)%N :: (128 + x2)%N :: (128 + x3)%N :: t4)
         with ([b0; (128 + x1)%N; (128 + x2)%N; (128 + x3)%N] ++ t4). rewrite <- Henc.
       apply utf8_decode_sound_step; [exact Hs|exact Hd|].
